@@ -29,6 +29,7 @@ import asyncio
 import hashlib
 
 from apphelp import AppRig
+from props import pit_extract
 
 PROP = 'C03'
 TITLE = 'Every expressed Interest completes exactly once with the right outcome'
@@ -42,9 +43,23 @@ THEOREMS = ['Ndn.C03.' + t for t in (
     'no_response_off_the_books', 'no_response_ignored_v1', 'expiry_cases',
     'tie_allowed_iff', 'tie_turn_orders', 'tie_plain_allowed', 'tie_reachable_exact', 'tie_refines_spec',
     'tie_no_internal_error', 'tie_complete_at_most_once', 'tie_nothing_remains', 'tie_pit_empty_at_quiescence',
-    'tie_outcome_correct', 'tie_frame', 'tie_plain_no_tie')]
+    'tie_outcome_correct', 'tie_frame', 'tie_plain_no_tie',
+    # the model computes with / is pinned to the tables generated from the source text (lean/NdnGen/C03.lean)
+    'default_lifetime', 'gen_lifetimes', 'gen_wait_budget', 'gen_wait_handlers', 'gen_no_response', 'gen_express',
+    'gen_remove_pending', 'gen_on_data', 'gen_on_nack', 'gen_clean_up', 'gen_satisfy', 'gen_satisfy_done_guard',
+    'gen_nack_interest', 'gen_timeout_cancel', 'gen_data_verdict', 'gen_data_failure', 'gen_table_ok', 'outcome_table')]
 PARTIAL = {}
 TRUSTED = [
+    'C03: lean/NdnGen/C03.lean is regenerated from the source text of appv2.py / app.py / name_tree.py by every run '
+    '(harness/props/pit_extract.py, ast only): default lifetimes and how they replace a missing lifetime, the waiting '
+    'budget of _wait_for_data (v2: until the deadline, `lifetime <= 0` -> 100 ms; legacy: whole lifetime), no_response, '
+    'the delivering verdicts / caught classes of the Data validator call are VALUES THE MODEL COMPUTES WITH; the guard '
+    'shapes of InterestTreeNode.satisfy / nack_interest / timeout / cancel (incl. the "future already done" tests), '
+    '_remove_pending, _on_data, _on_nack, _clean_up, express_raw_interest and the except clauses around wait_for are '
+    'normalised text PINNED by the theorems gen_*. Trusted: the extractor recognises the shape it names (an '
+    'unrecognised shape is emitted as unknown and fails the pin; the driver then answers bad-table), and the '
+    'normalisation (not pushed into comparisons, commutative operands sorted, len(x)==0 = not x, loop variable E, '
+    'logging calls dropped) preserves meaning',
     'C03: asyncio semantics are modelled, not verified: Future set_result/set_exception/cancel, wait_for '
     '(cancels the inner future on timeout and on outer cancellation, Python 3.12 timeouts.timeout; wait_for(fut, 0) on an '
     'unresolved future times out at once), a coroutine body runs at its first await, FIFO ready queue; '
@@ -78,6 +93,20 @@ RULE = ('event histories of 2..5 concurrently pending Interests over a 3-level n
         'front-ends), awaits 20..300 ms late (inside and outside the lifetime / the 100 ms grace). Every case is put to '
         'the model. non-trivial = at least two Interests '
         'and at least one Interest finished by something other than its own timeout; distinct = distinct histories')
+
+def extract(repo):
+    """lean/NdnGen/C03.lean from the source text; the gate table of C05 is refreshed with it (same extractor, and
+    NdnProofs.Props.C05 shares the PIT model)"""
+    _refresh('C05', pit_extract.generate_c05(repo))
+    return pit_extract.generate_c03(repo)
+
+
+def _refresh(prop, text):
+    import os
+    import lib
+    with lib.Lock(os.path.join(lib.LEAN, '.build.lock')):
+        lib.write_if_changed(os.path.join(lib.LEAN, 'NdnGen', prop + '.lean'), text)
+
 
 NAMES = [[1], [1, 2], [1, 3], [1, 2, 4], [1, 2, 5], [1, 3, 4], [6]]
 LIVES = [23, 53, 103, 203, 503]
@@ -838,7 +867,8 @@ def lat_of(spec):
 
 
 def life_of(fe, spec):
-    # constants of the code: appv2.DEFAULT_LIFETIME, and `100 if lifetime is None` in app._wait_for_data
+    # the property's reading of a missing lifetime (oracle side; the MODEL takes the defaults from the generated table:
+    # the history line carries `~` for a missing lifetime, see model_events)
     return spec['life'] if spec['life'] is not None else (4000 if fe == 'v2' else 100)
 
 
@@ -868,7 +898,7 @@ def model_events(case):
             tie_done = True
         if k == 'x':
             s = ev[2]
-            toks.append(f"{t}@x:{_nm(eff_name(s))}:{_dg(s['dig'])}:{1 if s['cbp'] else 0}:{life_of(fe, s)}:"
+            toks.append(f"{t}@x:{_nm(eff_name(s))}:{_dg(s['dig'])}:{1 if s['cbp'] else 0}:{'~' if s['life'] is None else s['life']}:"
                         f"{model_verdict(fe, eff_verdict(case, s))}:{lat_of(s)}:{s.get('defer') or 0}:"
                         f"{1 if s.get('nr') else 0}")
         elif k in ('d', 'n'):
@@ -1264,7 +1294,7 @@ LEVEL_TEXT = ('Lean 4 theorems over a hand-written model of the pending-Interest
               '(trie name -> node object, node heap with pending lists, node captured at express time, satisfy / '
               'nack_interest / timeout on the captured node / _remove_pending / _clean_up, validator scripts with latency, '
               'virtual clock; lifetime 0, v2 no_response, the first await of what express returned as an event of its own '
-              'with the 100 ms grace of v2 and the restarted lifetime of the legacy front-end): an invariant relating trie, '
+              'with the 100 ms grace of v2 and the restarted lifetime of the legacy front-end - both read off the source text on every run, lean/NdnGen/C03.lean): an invariant relating trie, '
               'nodes and per-Interest states holds after every event history; '
               'the model refines an abstract table in which every Interest reacts to every event on its own '
               '(refines_spec); from that: a completion record never changes, no callback raises, a finished Interest '
@@ -1279,7 +1309,9 @@ LEVEL_TEXT = ('Lean 4 theorems over a hand-written model of the pending-Interest
               'virtual-time asyncio loop - every generated case; equality when the model allows one outcome vector, '
               'membership when a tie allows several - plus the property oracle (a per-Interest automaton written from the '
               'statement) evaluated on the implementation.')
-LEVEL_NOTE = ('Proof is about the model; model=code is sampled (differential testing), not proved. The model is the code '
+LEVEL_NOTE = ('Proof is about the model; model=code is sampled (differential testing) and, for the constants / class lists / '
+              'guard shapes listed under TRUSTED, read off the source text on every run (lean/NdnGen/C03.lean, pinned by the '
+              'gen_* theorems), not proved. The model is the code '
               'with candidate fixes C03-1 (pit cleanup on cancellation / identity check before del) and C03-2 (Nack names '
               'the implicit digest) applied; on the unchanged tree the oracle reports the violations. In a tie the real '
               'loop resolves the order by its ready queue; the model allows every order, so there the comparison is '
